@@ -343,6 +343,9 @@ class _BobState():
         self.__atticDirs = {}
         self.__createdWithVersion = self.CUR_VERSION
         self.__storagePath = {}
+        # Only an uncommitted state that was written by this instance can be
+        # committed without verification.
+        self.__uncommittedTrusted = False
 
         # lock state
         lockFile = ".bob-state.lock"
@@ -445,6 +448,7 @@ class _BobState():
                     with DigestAdder(f) as df:
                         pickle.dump(state, df)
                 replacePath(dirtyPath, self.__uncommittedPath)
+                self.__uncommittedTrusted = True
             except OSError as e:
                 raise ParseError("Error saving workspace state: " + str(e))
         else:
@@ -495,7 +499,7 @@ class _BobState():
 
     def finalize(self):
         assert (self.__asynchronous == 0) and not self.__dirty
-        self.__commit(False)
+        self.__commit(not self.__uncommittedTrusted)
         if self.__buildIdCache is not None:
             try:
                 self.__buildIdCache.execute("END")
